@@ -4,6 +4,7 @@
 -/
 import AnthemModel.Proofs.RewritesBasic
 import AnthemModel.Proofs.RewritesQuant
+import AnthemModel.Proofs.RewritesClassic
 namespace Anthem.C07
 
 /-- Every rewrite of the `INTUITIONISTIC` array is an HT-equivalence. -/
@@ -74,6 +75,37 @@ theorem portfolio_sound_classic_of
     why it lives in the classic portfolio). -/
 theorem removeDoubleNegation_sound (F : Formula) : ClassEquiv (removeDoubleNegation F) F :=
   removeDoubleNegation_classEquiv F
+
+/-- `extend_quantifier_scope` preserves HT meaning (all four shapes, both quantifiers), hence
+    classical meaning. -/
+theorem extendQuantifierScope_sound (F : Formula) : ClassEquiv (extendQuantifierScope F) F :=
+  (extendQuantifierScope_htEquiv F).toClass
+
+/-- `substitute_defined_variables` preserves classical meaning (it rests on the substitution
+    lemma C17 and on the soundness of `find_definition`: the body entails `X = t`, `t` does not
+    mention `X` and has `X`'s sort). -/
+theorem substituteDefinedVariables_sound (F : Formula) :
+    ClassEquiv (substituteDefinedVariables F) F :=
+  substituteDefinedVariables_classEquiv F
+
+/-- **C07 for the classic portfolio, with the two `unstable` rewrites that are not yet proved as
+    explicit hypotheses** (restrict_quantifier_domain, simplify_transitive_equality; both are
+    tied to the implementation by exact correspondence and were repaired by fix: 8154c20 /
+    f1b4fb0). Everything else in the concatenation is proved. -/
+theorem portfolio_sound_classic_partial
+    (h1 : ∀ F, ClassEquiv (restrictQuantifierDomain F) F)
+    (h2 : ∀ F, ClassEquiv (simplifyTransitiveEquality F) F)
+    (s : Strategy) (fuel : Nat) (F : Formula) :
+    ClassEquiv (simplifyWith .classic s fuel F).1 F := by
+  refine portfolio_sound_classic_of ?_ s fuel F
+  intro r hr
+  simp only [classic, List.mem_cons, List.mem_nil_iff, or_false] at hr
+  rcases hr with rfl | rfl | rfl | rfl | rfl
+  · exact removeDoubleNegation_classEquiv
+  · exact substituteDefinedVariables_classEquiv
+  · exact h1
+  · exact extendQuantifierScope_sound
+  · exact h2
 
 /-- Non-vacuity: the portfolio really rewrites something (`p and #true` becomes `p`). -/
 example : (simplifyWith .intuitionistic .fixpoint 8
